@@ -7,7 +7,7 @@
 // visible.  The history properties are its loop invariants and the assertions
 // after each call, so they hold after every prefix of every history of every
 // length, ill-formed events included.  The function is never executed.
-use crate::keys::{Layout, Mapping, KeyCode, Event, Repeat, layout_ok, mapping_ok, MappingV, RepeatV};
+use crate::keys::{Layout, Mapping, KeyCode, Event, Repeat, layout_ok, mapping_ok, MappingV, RepeatV, mview};
 use crate::key_transforms::*;
 
 pub enum Op { Ev(Event), ReleaseAll }
@@ -294,4 +294,169 @@ pub fn universal_client(layout: &Layout, ops: &Vec<Op>)
     }
     i += 1;
   }
+}
+
+// ============================== C05: non-interference ==============================
+// x appears nowhere in the layout
+pub open spec fn foreign(l: Layout, x: KeyCode) -> bool {
+  forall|i: int| 0 <= i < l.mappings@.len() ==> !(#[trigger] l.mappings@[i]).from@.contains(x) && !l.mappings@[i].to@.contains(x) && !l.mappings@[i].absorbing@.contains(x)
+}
+// the mapping (view) mv is the only mapping of the layout that outputs x
+pub open spec fn sole_output_of(l: Layout, mv: MappingV, x: KeyCode) -> bool {
+  mv.to.contains(x) && forall|i: int| 0 <= i < l.mappings@.len() && (#[trigger] l.mappings@[i]).to@.contains(x) ==> mview(l.mappings@[i]) == mv
+}
+pub open spec fn in_effect(m: Mapper, mv: MappingV) -> bool { exists|j: int| 0 <= j < m.active_view().len() && #[trigger] m.active_view()[j] == mv }
+// a batch of identical events that the device accepts has at most one element
+pub proof fn lemma_apply_same(h: Set<KeyCode>, evs: Seq<Event>, e: Event)
+  requires apply(h, evs) is Some, forall|j: int| 0 <= j < evs.len() ==> evs[j] == e
+  ensures evs.len() <= 1
+  decreases evs.len()
+{
+  if evs.len() >= 2 {
+    let a = evs.drop_last(); let b = a.drop_last();
+    assert(a.last() == e && evs.last() == e) by { assert(a[a.len() - 1] == evs[evs.len() - 2]); assert(evs[evs.len() - 1] == e); }
+    let h1 = apply(h, b).unwrap(); let h2 = ev1(h1, e).unwrap();
+    assert(apply(h, a) == ev1(h1, e));
+    assert(ev1(h2, e) is Some);
+  }
+}
+
+//@ C05 | universal client (non-interference): history-level theorems
+pub fn universal_client_c05(layout: &Layout, ops: &Vec<Op>)
+  requires layout_ok(*layout)
+{
+  let mut m = Mapper::for_layout(layout);
+  let mut i: usize = 0;
+  while i < ops.len()
+    invariant
+      i <= ops.len(),
+      m.inv(),
+      m.grouped_from(*layout),
+      //@ C05 | empty layout, history invariant: every key the mapper considers pressed is down on the virtual keyboard
+      layout.mappings@.len() == 0 ==> forall|x: KeyCode| #[trigger] m.pressed_view().contains(x) ==> m.held_view().contains(x),
+    decreases ops.len() - i
+  {
+    let ghost m0 = m; let ghost held0 = m.held_view();
+    match &ops[i] {
+      Op::Ev(e) => {
+        let e1 = match e { Event::Pressed(k) => Event::Pressed(*k), Event::Released(k) => Event::Released(*k) };
+        let ghost e1g = e1;
+        let r = m.step(e1);
+        proof {
+          let key = match e1g { Event::Pressed(k) => k, Event::Released(k) => k };
+          let acted = match e1g { Event::Pressed(k) => !m0.pressed_view().contains(k), Event::Released(k) => m0.pressed_view().contains(k) };
+          m0.lemma_gfired(*layout, key);
+          lemma_fired_in_layout(layout.mappings@, m0.pressed_view(), m0.eff_absorbed(key), key);
+          lemma_layout_fired_sound(layout.mappings@, m0.pressed_view(), m0.eff_absorbed(key), key);
+          let fired = m0.gfired(key);
+          // ---------------- foreign keys ----------------
+          //@ C05 | THEOREM C05 (foreign key, press): the press of a key that appears nowhere in the layout is forwarded as the last event of the step, and the key is down afterwards
+          assert forall|x: KeyCode| foreign(*layout, x) && e1g == Event::Pressed(x) && acted implies r.events@.len() >= 1 && r.events@.last() == Event::Pressed(x) && m.held_view().contains(x) by {
+            if foreign(*layout, x) && e1g == Event::Pressed(x) && acted {
+              if m0.mentions(x) { /* a mapping in effect would be a layout mapping that mentions x */ lemma_mentions_layout(m0, *layout, x); }
+              assert(fired is None);
+            }
+          }
+          //@ C05 | THEOREM C05 (foreign key, stays down): a step lifts a key that appears nowhere in the layout only if it is the release of that key, or the key is a non-modifier and the step fires a mapping whose repeat is not Normal
+          assert forall|x: KeyCode| foreign(*layout, x) && #[trigger] rel(r.events@, x) implies e1g == Event::Released(x) || (e1g is Pressed && acted && !is_mod(x) && fired is Some && !(fired.unwrap().repeat is Normal)) by {
+            if foreign(*layout, x) && rel(r.events@, x) {
+              assert(acted);
+              if m0.mapped_view().contains(x) { m0.lemma_mapped(x); let j = choose|j: int| 0 <= j < m0.active_view().len() && (#[trigger] m0.active_view()[j]).to.contains(x); m0.lemma_active_in_layout(*layout, j); }
+              if m0.absorbed_view().contains(x) { m0.lemma_absorbed_in_layout(*layout, x); }
+              match e1g {
+                Event::Pressed(k) => { assert(Mapper::lift_scope(m0, k, x)); },
+                Event::Released(k) => {
+                  assert(Mapper::drop_scope(m0, m, k, x));
+                  if x != k { let j = choose|j: int| 0 <= j < m0.active_view().len() && (#[trigger] m0.active_view()[j]).from.contains(k) && m0.active_view()[j].to.contains(x); m0.lemma_active_in_layout(*layout, j); }
+                },
+              }
+            }
+          }
+          //@ C05 | THEOREM C05 (foreign key, no spurious press): a key that appears nowhere in the layout is pressed on the virtual keyboard only by the step that handles its own physical press
+          assert forall|x: KeyCode| foreign(*layout, x) && r.events@.contains(Event::Pressed(x)) implies e1g == Event::Pressed(x) by {
+            if foreign(*layout, x) && r.events@.contains(Event::Pressed(x)) {
+              match e1g { Event::Pressed(k) => { assert(acted); }, Event::Released(k) => { assert(all_released(r.events@)); } }
+            }
+          }
+          //@ C05 | THEOREM C05 (foreign key, stays down): a key that is down and is not lifted by an event of the step is down afterwards
+          assert forall|x: KeyCode| held0.contains(x) && !rel(r.events@, x) implies m.held_view().contains(x) by { if held0.contains(x) && !rel(r.events@, x) { lemma_apply_stays(held0, r.events@, x); } }
+          // ---------------- release clause ----------------
+          //@ C05 | THEOREM C05 (release clause): the release of k lifts only k itself and output keys of mappings in effect that have k in their trigger, and never a key that a mapping remaining in effect outputs
+          assert forall|x: KeyCode| e1g is Released && #[trigger] rel(r.events@, x) implies Mapper::drop_scope(m0, m, key, x) by {}
+          // ---------------- in-effect clauses (layouts without absorbing) ----------------
+          if no_absorbing(*layout) {
+            m0.lemma_no_absorbing(*layout, key);
+            //@ C05 | THEOREM C05 (in-effect clauses, layouts without absorbing): while a mapping stays in effect, an output key x of it that no other mapping outputs is not lifted by presses and releases of other keys: never if x is a modifier and the mapping is a modifier-remapping (its output does not end in a non-modifier key); if the mapping has Normal repeat and outputs no modifier, only by a step that fires a mapping whose repeat is not Normal
+            assert forall|mv: MappingV, x: KeyCode| #![trigger sole_output_of(*layout, mv, x), rel(r.events@, x)]
+              in_effect(m0, mv) && in_effect(m, mv) && sole_output_of(*layout, mv, x) && rel(r.events@, x)
+              && ((!act_map_v(mv.to) && is_mod(x)) || (mv.repeat is Normal && !has_mod(mv.to)))
+              implies e1g is Pressed && acted && !is_mod(x) && fired is Some && !(fired.unwrap().repeat is Normal) by {
+              let j0 = choose|j: int| 0 <= j < m0.active_view().len() && #[trigger] m0.active_view()[j] == mv;
+              let j1 = choose|j: int| 0 <= j < m.active_view().len() && #[trigger] m.active_view()[j] == mv;
+              assert(acted);
+              match e1g {
+                Event::Released(k) => { assert(Mapper::drop_scope(m0, m, k, x)); assert(m.active_view()[j1].to.contains(x)); },
+                Event::Pressed(k) => {
+                  assert(Mapper::lift_scope(m0, k, x));
+                  m0.lemma_active_facts(j0, x);
+                  if m0.passed_view().contains(x) { m0.lemma_passed(x); }
+                  if ram_target_v(m0.active_view(), x) {
+                    let j = choose|j: int| 0 <= j < m0.active_view().len() && act_map_v((#[trigger] m0.active_view()[j]).to) && m0.active_view()[j].to.len() > 1 && has_mod(m0.active_view()[j].to) && m0.active_view()[j].to.contains(x);
+                    m0.lemma_active_in_layout(*layout, j);
+                  }
+                  match fired { Some(fv) => { if fv.to.contains(x) { assert(fv == mv); m0.lemma_active_facts(j0, k); } }, None => {} }
+                },
+              }
+            }
+          }
+          // ---------------- empty layout ----------------
+          if layout.mappings@.len() == 0 {
+            if m0.active_view().len() > 0 { m0.lemma_active_in_layout(*layout, 0); }
+            if m.active_view().len() > 0 { m.lemma_active_in_layout(*layout, 0); }
+            if m0.absorbed_view().len() > 0 { assert(m0.absorbed_view().contains(m0.absorbed_view()[0])); m0.lemma_absorbed_in_layout(*layout, m0.absorbed_view()[0]); }
+            //@ C05 | THEOREM C05 (empty layout): every event that is not ill-formed is forwarded unchanged, as the only event of its step
+            assert(acted ==> r.events@ =~= seq![e1g]) by {
+              if acted {
+                assert forall|j: int| 0 <= j < r.events@.len() implies r.events@[j] == e1g by {
+                  let ev = r.events@[j]; assert(r.events@.contains(ev));
+                  match ev {
+                    Event::Released(y) => { assert(rel(r.events@, y));
+                      if m0.mapped_view().contains(y) { m0.lemma_mapped(y); }
+                      match e1g { Event::Pressed(k) => { assert(Mapper::lift_scope(m0, k, y)); }, Event::Released(k) => { assert(Mapper::drop_scope(m0, m, k, y)); } } },
+                    Event::Pressed(y) => { match e1g { Event::Pressed(k) => {}, Event::Released(k) => { assert(all_released(r.events@)); } } },
+                  }
+                }
+                lemma_apply_same(held0, r.events@, e1g);
+                match e1g {
+                  Event::Pressed(k) => { if m0.mentions(k) { lemma_mentions_layout(m0, *layout, k); } },
+                  Event::Released(k) => { if r.events@.len() == 0 { assert(m.held_view() == held0); assert(held0.contains(k)); m.lemma_justified(*layout, k); } },
+                }
+              }
+            }
+            assert forall|x: KeyCode| #[trigger] m.pressed_view().contains(x) implies m.held_view().contains(x) by {
+              if e1g != Event::Pressed(x) || !acted { assert(m0.pressed_view().contains(x)); if acted { assert(e1g != Event::Released(x)); assert(!r.events@.contains(Event::Released(x))) by { if r.events@.contains(Event::Released(x)) { let j = choose|j: int| 0 <= j < r.events@.len() && r.events@[j] == Event::Released(x); assert(seq![e1g][j] == e1g); } } lemma_apply_stays(held0, r.events@, x); } }
+            }
+          }
+        }
+      },
+      Op::ReleaseAll => {
+        let evs = m.release_all();
+        proof { if layout.mappings@.len() == 0 { assert forall|x: KeyCode| #[trigger] m.pressed_view().contains(x) implies m.held_view().contains(x) by { assert(m.pressed_view().len() == 0); } } }
+      },
+    }
+    proof {
+      //@ C05 | THEOREM C05 (foreign key, released): at every prefix a key that appears nowhere in the layout is down on the virtual keyboard only while the mapper considers it pressed
+      assert forall|x: KeyCode| foreign(*layout, x) && m.held_view().contains(x) implies m.pressed_view().contains(x) by { if foreign(*layout, x) && m.held_view().contains(x) { m.lemma_justified(*layout, x); } }
+    }
+    i += 1;
+  }
+}
+// a key that a mapping in effect mentions occurs in the layout
+pub proof fn lemma_mentions_layout(m: Mapper, l: Layout, x: KeyCode)
+  requires m.inv(), m.grouped_from(l), m.mentions(x)
+  ensures !foreign(l, x), l.mappings@.len() > 0
+{
+  m.lemma_mentions_witness(x);
+  let j = choose|j: int| 0 <= j < m.active_view().len() && ((#[trigger] m.active_view()[j]).to.contains(x) || m.active_view()[j].from.contains(x));
+  m.lemma_active_in_layout(l, j);
 }
